@@ -2,7 +2,7 @@
 import ast
 
 from sa.core import rule
-from sa.ir import norm, dotted, call_name, recv_text, walk_local, names_in, calls_in_order, AnalysisError
+from sa.ir import sig_body, norm, dotted, call_name, recv_text, walk_local, names_in, calls_in_order, AnalysisError
 from sa.pe import specialise, SpecDom
 from sa.sai import Interp, Domain, FALL
 
@@ -288,7 +288,7 @@ EXPR_API = ("build", "width", "is_signed", "accept")
 
 
 def _only_raises(func):
-    body = [b for b in func.node.body if not (isinstance(b, ast.Expr) and isinstance(b.value, ast.Constant))]
+    body = sig_body(func.node)
     return len(body) == 1 and isinstance(body[0], ast.Raise)
 
 
